@@ -773,3 +773,268 @@ Theorem C14_example_file_G5 :
   end.
 Proof. exact ex_file_G5. Qed.
 Print Assumptions C14_example_file_G5.
+
+(* ====================================================================== the blank line behind the 42 header (round 5) *)
+From NV Require Import Model.GuardTurnE Proofs.GuardBlank.
+
+(* the combined turn function turn_ge um = EngineTokE.turn_e with IsPreprocessorStatement answered by the translated matcher:
+   it refines turn_g (unconditionally) and turn_e um (when um is silent on IsPreprocessorStatement) *)
+Theorem C14_turn_g_refines :
+  forall (um : str -> list Lexer.token -> option (bool * Z)) (order : list str)
+  (toks : list Lexer.token) (r : Engine.tryres),
+  turn_g order toks = Some r -> turn_ge um order toks = Some r.
+Proof. exact turn_g_refines. Qed.
+Print Assumptions C14_turn_g_refines.
+
+Theorem C14_turn_e_refines_ge :
+  forall (um : str -> list Lexer.token -> option (bool * Z)) (order : list str)
+  (toks : list Lexer.token) (r : Engine.tryres),
+  silent_on_pre um -> EngineTokE.turn_e um order toks = Some r -> turn_ge um order toks = Some r.
+Proof. exact turn_e_refines. Qed.
+Print Assumptions C14_turn_e_refines_ge.
+
+Theorem C14_induced_ge_induced_g :
+  forall (um : str -> list Lexer.token -> option (bool * Z)) (oracle : nat -> Engine.tryres)
+  (toks : list Lexer.token), induced_ge um oracle toks -> induced_g oracle toks.
+Proof. exact induced_ge_induced_g. Qed.
+Print Assumptions C14_induced_ge_induced_g.
+
+Theorem C14_induced_ge_induced_e :
+  forall (um : str -> list Lexer.token -> option (bool * Z)) (oracle : nat -> Engine.tryres)
+  (toks : list Lexer.token),
+  silent_on_pre um -> induced_ge um oracle toks -> EngineTokE.induced_e um oracle toks.
+Proof. exact induced_ge_induced_e. Qed.
+Print Assumptions C14_induced_ge_induced_e.
+
+Theorem C14_induced_ge_induced :
+  forall (um : str -> list Lexer.token -> option (bool * Z)) (oracle : nat -> Engine.tryres)
+  (toks : list Lexer.token), induced_ge um oracle toks -> EngineTok.induced oracle toks.
+Proof. exact induced_ge_induced. Qed.
+Print Assumptions C14_induced_ge_induced.
+
+(* the blank-line turn: decided, under c13's assumption that the four primaries tried before IsEmptyLine decline a
+   NEWLINE-first statement *)
+Theorem C14_turn_ge_empty_line :
+  forall (um : str -> list Lexer.token -> option (bool * Z)) (t : Lexer.token) (rest : list Lexer.token),
+  EngineTokE.declines_newline um ->
+  Lexer.t_type t = CommentLines.NEWLINE ->
+  turn_ge um RegistryOrder.primaries_order (t :: rest) = Some (Engine.Matched (s "IsEmptyLine") 1).
+Proof. exact turn_ge_empty_line. Qed.
+Print Assumptions C14_turn_ge_empty_line.
+
+Theorem C14_lex_newline_then :
+  forall (uw ud : N -> bool) (S0 : str) (itemsS : list Lexer.item) (xS : Lexer.st),
+  Lexer.lex uw ud S0 = Ok (itemsS, xS) ->
+  Lexer.lex uw ud (10%N :: S0) =
+  Ok
+  (Lexer.ITok
+  {|
+  Lexer.t_type := CommentLines.NEWLINE; Lexer.t_line := 1; Lexer.t_col := 1; Lexer.t_val := None
+  |} 0 1 :: map (LineShift.sh_item 1 1) itemsS, LineShift.shl 1 1 xS).
+Proof. exact lex_newline_then. Qed.
+Print Assumptions C14_lex_newline_then.
+
+Theorem C14_blank_turn :
+  forall (um : str -> list Lexer.token -> option (bool * Z)) (oracle : nat -> Engine.tryres)
+  (toks : list Lexer.token) (k : nat) (t : Lexer.token) (rest : list Lexer.token),
+  EngineTokE.declines_newline um ->
+  induced_ge um oracle toks ->
+  EngineTok.remaining oracle toks k = t :: rest ->
+  Lexer.t_type t = CommentLines.NEWLINE ->
+  oracle k = Engine.Matched (s "IsEmptyLine") 1 /\
+  (forall (c : gctx) (r : list stmt), tok_step c (s "IsEmptyLine") (t :: rest) = step c SBlank r).
+Proof. exact blank_turn. Qed.
+Print Assumptions C14_blank_turn.
+
+(* file level for  42 header ++ "\n" ++ `#ifndef X\n# define Y\n` ++ R : turns 0..10 comments, 11 the blank line, 12 / 13 the
+   opening lines (all derived), 14 = first body turn.  Left: declines_newline um, induced_ge, the body simulation, the position of
+   the `#endif` line *)
+Theorem C14_file_shape_blank_g :
+  forall (uw ud : N -> bool) (um : str -> list Lexer.token -> option (bool * Z)) 
+  (f : Header.fields) (x y R : str) (itemsR : list Lexer.item) (xR : Lexer.st)
+  (items' : list Lexer.item) (xf' : Lexer.st) (oracle : nat -> Engine.tryres)
+  (body : list stmt) (after : list Lexer.token),
+  EngineTokE.declines_newline um ->
+  HeaderLex.fields_lex_ok f = true ->
+  ident_ok x ->
+  ident_ok y ->
+  Lexer.lex uw ud R = Ok (itemsR, xR) ->
+  Lexer.lex uw ud (Header.lines_text (Header.template f) ++ 10%N :: ifndef_text x ++ define_text y ++ R) =
+  Ok (items', xf') ->
+  induced_ge um oracle (Lexer.tokens_of items') ->
+  rest_shape_g oracle (Lexer.tokens_of items') 14 body after ->
+  guarded_shape oracle (Lexer.tokens_of items') (comments11 ++ [SBlank]) body x y after.
+Proof. exact file_shape_blank_g. Qed.
+Print Assumptions C14_file_shape_blank_g.
+
+Theorem C14_file_accept_blank_partial :
+  forall (uw ud : N -> bool) (um : str -> list Lexer.token -> option (bool * Z)),
+  EngineTokE.declines_newline um ->
+  forall base : str,
+  file_type base = s ".h" ->
+  forall f : Header.fields,
+  HeaderLex.fields_lex_ok f = true ->
+  forall (R : str) (itemsR : list Lexer.item) (xR : Lexer.st),
+  Lexer.lex uw ud R = Ok (itemsR, xR) ->
+  forall (oracle : nat -> Engine.tryres) (body : list stmt) (items' : list Lexer.item) (xf' : Lexer.st),
+  ident_ok (guard_of base) ->
+  Lexer.lex uw ud
+  (Header.lines_text (Header.template f) ++
+  10%N :: ifndef_text (guard_of base) ++ define_text (guard_of base) ++ R) =
+  Ok (items', xf') ->
+  induced_ge um oracle (Lexer.tokens_of items') ->
+  rest_shape_g oracle (Lexer.tokens_of items') 14 body [] ->
+  balanced body ->
+  tok_emitted base oracle (Lexer.tokens_of items') (turns (comments11 ++ [SBlank]) body) = [].
+Proof. exact file_accept_blank_partial. Qed.
+Print Assumptions C14_file_accept_blank_partial.
+
+Theorem C14_file_G1_blank_partial :
+  forall (uw ud : N -> bool) (um : str -> list Lexer.token -> option (bool * Z)),
+  EngineTokE.declines_newline um ->
+  forall base : str,
+  file_type base = s ".h" ->
+  forall f : Header.fields,
+  HeaderLex.fields_lex_ok f = true ->
+  forall (R : str) (itemsR : list Lexer.item) (xR : Lexer.st),
+  Lexer.lex uw ud R = Ok (itemsR, xR) ->
+  forall (oracle : nat -> Engine.tryres) (body : list stmt) (x y : str) (items' : list Lexer.item)
+  (xf' : Lexer.st),
+  ident_ok x ->
+  ident_ok y ->
+  x <> guard_of base ->
+  py_upper x <> guard_of base ->
+  Lexer.lex uw ud (Header.lines_text (Header.template f) ++ 10%N :: ifndef_text x ++ define_text y ++ R) =
+  Ok (items', xf') ->
+  induced_ge um oracle (Lexer.tokens_of items') ->
+  rest_shape_g oracle (Lexer.tokens_of items') 14 body [] ->
+  In (s "HEADER_PROT_NAME")
+  (tok_emitted base oracle (Lexer.tokens_of items') (turns (comments11 ++ [SBlank]) body)).
+Proof. exact file_G1_blank_partial. Qed.
+Print Assumptions C14_file_G1_blank_partial.
+
+Theorem C14_file_G2_blank_partial :
+  forall (uw ud : N -> bool) (um : str -> list Lexer.token -> option (bool * Z)),
+  EngineTokE.declines_newline um ->
+  forall base : str,
+  file_type base = s ".h" ->
+  forall f : Header.fields,
+  HeaderLex.fields_lex_ok f = true ->
+  forall (R : str) (itemsR : list Lexer.item) (xR : Lexer.st),
+  Lexer.lex uw ud R = Ok (itemsR, xR) ->
+  forall (oracle : nat -> Engine.tryres) (body : list stmt) (x y : str) (items' : list Lexer.item)
+  (xf' : Lexer.st),
+  ident_ok x ->
+  ident_ok y ->
+  x <> guard_of base ->
+  py_upper x = guard_of base ->
+  Lexer.lex uw ud (Header.lines_text (Header.template f) ++ 10%N :: ifndef_text x ++ define_text y ++ R) =
+  Ok (items', xf') ->
+  induced_ge um oracle (Lexer.tokens_of items') ->
+  rest_shape_g oracle (Lexer.tokens_of items') 14 body [] ->
+  In (s "HEADER_PROT_UPPER")
+  (tok_emitted base oracle (Lexer.tokens_of items') (turns (comments11 ++ [SBlank]) body)).
+Proof. exact file_G2_blank_partial. Qed.
+Print Assumptions C14_file_G2_blank_partial.
+
+Theorem C14_file_G3_blank_partial :
+  forall (uw ud : N -> bool) (um : str -> list Lexer.token -> option (bool * Z)),
+  EngineTokE.declines_newline um ->
+  forall base : str,
+  file_type base = s ".h" ->
+  forall f : Header.fields,
+  HeaderLex.fields_lex_ok f = true ->
+  forall (R : str) (itemsR : list Lexer.item) (xR : Lexer.st),
+  Lexer.lex uw ud R = Ok (itemsR, xR) ->
+  forall (oracle : nat -> Engine.tryres) (body : list stmt) (x y : str) (items' : list Lexer.item)
+  (xf' : Lexer.st),
+  ident_ok x ->
+  ident_ok y ->
+  y <> guard_of base ->
+  balanced body ->
+  defines (guard_of base) body = false ->
+  Lexer.lex uw ud (Header.lines_text (Header.template f) ++ 10%N :: ifndef_text x ++ define_text y ++ R) =
+  Ok (items', xf') ->
+  induced_ge um oracle (Lexer.tokens_of items') ->
+  rest_shape_g oracle (Lexer.tokens_of items') 14 body [] ->
+  In (s "HEADER_PROT_NODEF")
+  (tok_emitted base oracle (Lexer.tokens_of items') (turns (comments11 ++ [SBlank]) body)).
+Proof. exact file_G3_blank_partial. Qed.
+Print Assumptions C14_file_G3_blank_partial.
+
+Theorem C14_file_G4_blank_partial :
+  forall (uw ud : N -> bool) (um : str -> list Lexer.token -> option (bool * Z)),
+  EngineTokE.declines_newline um ->
+  forall base : str,
+  file_type base = s ".h" ->
+  forall f : Header.fields,
+  HeaderLex.fields_lex_ok f = true ->
+  forall (R : str) (itemsR : list Lexer.item) (xR : Lexer.st),
+  Lexer.lex uw ud R = Ok (itemsR, xR) ->
+  forall (oracle : nat -> Engine.tryres) (body : list stmt) (x y x2 : str) (l4 rest4 : list Lexer.token)
+  (items' : list Lexer.item) (xf' : Lexer.st),
+  ident_ok x ->
+  ident_ok y ->
+  balanced body ->
+  map tv l4 = ifndef_line x2 ->
+  Lexer.lex uw ud (Header.lines_text (Header.template f) ++ 10%N :: ifndef_text x ++ define_text y ++ R) =
+  Ok (items', xf') ->
+  induced_ge um oracle (Lexer.tokens_of items') ->
+  rest_shape_g oracle (Lexer.tokens_of items') 14 body (l4 ++ rest4) ->
+  In (s "HEADER_PROT_MULT")
+  (tok_emitted base oracle (Lexer.tokens_of items') (S (turns (comments11 ++ [SBlank]) body))).
+Proof. exact file_G4_blank_partial. Qed.
+Print Assumptions C14_file_G4_blank_partial.
+
+Theorem C14_file_G6_blank_partial :
+  forall (uw ud : N -> bool) (um : str -> list Lexer.token -> option (bool * Z)),
+  EngineTokE.declines_newline um ->
+  forall base : str,
+  file_type base = s ".h" ->
+  forall f : Header.fields,
+  HeaderLex.fields_lex_ok f = true ->
+  forall (R : str) (itemsR : list Lexer.item) (xR : Lexer.st),
+  Lexer.lex uw ud R = Ok (itemsR, xR) ->
+  forall (oracle : nat -> Engine.tryres) (body : list stmt) (x y : str) (t : Lexer.token)
+  (more : list Lexer.token) (items' : list Lexer.item) (xf' : Lexer.st),
+  ident_ok x ->
+  ident_ok y ->
+  is_trivia_ty (Lexer.t_type t) = false ->
+  balanced body ->
+  Lexer.lex uw ud (Header.lines_text (Header.template f) ++ 10%N :: ifndef_text x ++ define_text y ++ R) =
+  Ok (items', xf') ->
+  induced_ge um oracle (Lexer.tokens_of items') ->
+  rest_shape_g oracle (Lexer.tokens_of items') 14 body (t :: more) ->
+  In (s "HEADER_PROT_ALL_AF")
+  (tok_emitted base oracle (Lexer.tokens_of items') (turns (comments11 ++ [SBlank]) body)).
+Proof. exact file_G6_blank_partial. Qed.
+Print Assumptions C14_file_G6_blank_partial.
+
+(* a complete realistic header (42 header, blank, guard, blank, prototype, blank, #endif): tokenizer model run; every comment,
+   blank-line and guard-line turn decided by turn_ge; only the prototype turn is left to an untranslated primary *)
+Theorem C14_example_real_header :
+  match Lexer.lex nouni_ nouni_ ex_real_text with
+  | Ok (items, _) =>
+  tok_emitted (s "foo.h") ex_real_oracle (Lexer.tokens_of items) 18 = [] /\
+  EngineTok.remaining ex_real_oracle (Lexer.tokens_of items) 18 = [] /\
+  forallb
+  (fun k : nat =>
+  match
+  turn_ge um_newline RegistryOrder.primaries_order
+  (EngineTok.remaining ex_real_oracle (Lexer.tokens_of items) k)
+  with
+  | Some (Engine.Matched nm j) =>
+  match ex_real_oracle k with
+  | Engine.Matched nm' j' => str_eqb nm nm' && (j =? j')
+  | _ => false
+  end
+  | _ => false
+  end)
+  [0%nat; 1%nat; 2%nat; 3%nat; 4%nat; 5%nat; 6%nat; 7%nat; 8%nat; 9%nat; 10%nat; 11%nat; 12%nat;
+  13%nat; 14%nat; 16%nat; 17%nat] = true /\
+  turn_ge um_newline RegistryOrder.primaries_order
+  (EngineTok.remaining ex_real_oracle (Lexer.tokens_of items) 15) = None
+  | _ => False
+  end.
+Proof. exact ex_real_header. Qed.
+Print Assumptions C14_example_real_header.
